@@ -41,6 +41,7 @@ ASSUMPTIONS = [
     'ComposedPopulationModel); elsewhere a refusal is a rejection',
     'rank-correlation threshold with family-wise false alarm <= 1e-9',
     "integer seeds are drawn below 2**32 (the routines that seed the legacy generator refuse larger ones; reviewers' observation, outside the property)",
+    "of the generators owned by scipy distribution objects only truncnorm's (the one chi draws from itself) is set by the workload: pints priors draw from scipy.stats.norm etc. and can only be seeded through numpy's legacy global generator, which chi does",
     'samplers whose only randomness is a discrete choice (a bare HeterogeneousModel) may repeat a draw under another seed: excluded from the seed-collision monitor',
 ]
 ANCHORS = [
@@ -246,6 +247,22 @@ def _foreign(rng):
                                         seed=int(rng.integers(100)))
 
 
+
+def _set_global(g, scipy_own):
+    """sets every process-wide generator a sampler could fall back on"""
+    import scipy.stats as st
+    # (only the distribution chi draws from itself: pints priors draw from
+    # scipy.stats.norm etc. and can only be seeded through numpy's legacy
+    # global generator, which is what chi does - see ASSUMPTIONS)
+    dists = [st.truncnorm]
+    for d in dists:
+        # (None: the distribution uses numpy's legacy global generator)
+        d.random_state = np.random.RandomState(g) if scipy_own else None
+    if g is not None:
+        np.random.seed(g)
+        random.seed(g)
+
+
 def reproducibility_case(ctx, rng, idx):
     ep = ENTRY[idx % len(ENTRY)]
     try:
@@ -269,19 +286,24 @@ def reproducibility_case(ctx, rng, idx):
         'one' if seed == 1 else ('max' if seed == 2 ** 32 - 2 else 'random'))
     gstate = int(rng.integers(0, 10 ** 6))
     ctx.case((name, idx % 6), True, sample=dict(feats, seed=seed))
+    # process-wide generators: numpy's legacy one, python's, and (40%
+    # of the cases) the generator owned by scipy's truncnorm distribution
+    # object, which scipy documents as a way of seeding a distribution
+    own = bool(rng.random() < 0.4)
+    feats['scipy_distribution_generators_set'] = own
     try:
-        np.random.seed(gstate)
-        random.seed(gstate)
+        _set_global(gstate, own)
         r1 = call(seed)
         _foreign(rng)
-        np.random.seed(gstate + 17)
-        random.seed(gstate + 17)
+        _set_global(gstate + 17, own)
         np.random.rand(3)
         r2 = call(seed)
         r3 = call(seed + 1)
     except Exception as e:      # noqa
         ctx.violation_exc('sampling_raises', e, {'entry_point': name}, feats)
         return
+    finally:
+        _set_global(None, False)
     ctx.count('reproducibility_pairs')
     # an identical object that was used before with OTHER arguments (other
     # parameters, times, individuals, sample counts, seeds) gives the same
